@@ -1063,7 +1063,7 @@ func fieldName(ptrType types.Type, idx int) string {
 
 func fieldNameStruct(t types.Type, idx int) string {
 	if st, ok := t.Underlying().(*types.Struct); ok && idx < st.NumFields() {
-		return st.Field(idx).Name()
+		return canonicalField(t, st.Field(idx).Name())
 	}
 	return "f" + itoa(idx)
 }
